@@ -95,6 +95,7 @@ type Cfg struct {
 	TypeSw   bool
 	NFuncs   int
 	NFiles   int
+	PlainPct int // share of plain (non-generator) consumer functions
 }
 
 type G struct {
@@ -106,6 +107,7 @@ type G struct {
 	funcs  []*Func // generated so far (callable by later ones)
 	feat   map[string]bool
 	needPick bool
+	needHelpers bool
 }
 
 type fctx struct {
@@ -121,6 +123,7 @@ type fctx struct {
 	left   *int
 	plainRet string // result type of the enclosing plain function literal / plain function ("" void)
 	inLit  bool
+	dead   bool // generating unreachable statements (after break/continue/return)
 	innerSwitchYield bool
 }
 
@@ -267,6 +270,7 @@ func (c *fctx) stmts(n int) []*S {
 		if last.K == SBreak || last.K == SContinue || last.K == SReturn {
 			if c.g.r.Intn(100) < c.g.cfg.DeadPct {
 				c.g.mark("dead_code_after_terminator")
+				c.dead = true
 				continue
 			}
 			break
@@ -601,6 +605,12 @@ func (c *fctx) forStmt() []*S {
 		decl := &S{K: SDecl, ID: c.g.id(), Name: ctr, E: lit(r.Intn(2))}
 		simple := func() *S {
 			switch {
+			case c.gen && c.g.cfg.Deleg && r.Chance(1, 4) && !(c.dead && c.g.cfg.Quar["A16"]):
+				if ys := c.yieldFromX(false); len(ys) == 1 && ys[0].K == SYieldFrom {
+					c.g.mark("yieldfrom_in_for_init_or_post")
+					return ys[0]
+				}
+				return &S{K: SYield, E: c.expr()}
 			case c.gen && r.Chance(2, 3):
 				return &S{K: SYield, E: c.expr()}
 			default:
@@ -745,8 +755,30 @@ func walkNoLit(ss []*S, f func(*S)) {
 	}
 }
 
-func (c *fctx) yieldFrom() []*S {
+func (c *fctx) yieldFrom() []*S { return c.yieldFromX(true) }
+
+// yieldFromX: with allowDecl false only statements that declare nothing are produced (the
+// caller may discard the result).
+func (c *fctx) yieldFromX(allowDecl bool) []*S {
 	r := c.g.r
+	// delegates held in variables: fresh, advanced by hand before delegation, delegated twice
+	if its := c.sc.visible(vIter); len(its) > 0 && r.Chance(1, 2) {
+		it := its[r.Intn(len(its))]
+		if r.Chance(1, 3) {
+			c.g.mark("delegate_advanced_by_hand")
+			return []*S{{K: SRaw, ID: c.g.id(), Src: fmt.Sprintf("if %s.MoveNext() {\n\tvrt.E(%d, %s.Current())\n}", it, c.g.nextTag(), it)}}
+		}
+		c.g.mark("yieldfrom_iterator_variable")
+		return []*S{{K: SYieldFrom, ID: c.g.id(), E: v(it)}}
+	}
+	if allowDecl && r.Chance(1, 4) {
+		if src := c.iterExpr(); src != nil && src.K == XIterCall {
+			it := c.fresh([]string{"it", "it2", "it3"})
+			c.sc.declare(it, vIter)
+			c.g.mark("delegate_stored_in_variable")
+			return []*S{{K: SDecl, ID: c.g.id(), Name: it, E: src}}
+		}
+	}
 	// delegate to a nested literal in scope or to an earlier finite generator of the batch
 	if gs := c.sc.visible(vGenLit); len(gs) > 0 && r.Chance(1, 2) {
 		return []*S{{K: SYieldFrom, ID: c.g.id(), E: &X{K: XIterCall, Name: gs[r.Intn(len(gs))], Args: []*X{c.pure(1)}}}}
@@ -776,9 +808,6 @@ func (c *fctx) yieldFrom() []*S {
 	return []*S{{K: SYieldFrom, ID: c.g.id(), E: call}}
 }
 
-func (c *fctx) rangeStmt() []*S {
-	return []*S{c.eff()} // extended by the range / consumer profiles (range.go)
-}
 
 // ---------------------------------------------------------------------------------------
 
@@ -794,7 +823,7 @@ const pickDecl = `func pick(n int) any {
 
 // Base weights per profile.
 func baseCfg(profile string) Cfg {
-	c := Cfg{Profile: profile, MaxDepth: 4, MaxStmts: 22, EffPct: 25, DeadPct: 4, ElsePct: 50, Quar: map[string]bool{"A1": true, "A2": true}, NFuncs: 60, NFiles: 3}
+	c := Cfg{Profile: profile, MaxDepth: 4, MaxStmts: 22, EffPct: 25, DeadPct: 4, ElsePct: 50, Quar: map[string]bool{"A1": true, "A2": true, "A16": true}, NFuncs: 60, NFiles: 3}
 	c.W = map[SK]int{SDecl: 6, SAssign: 6, SIncDec: 3, SEff: 8, SYield: 14, SBlock: 3, SIf: 9, SSwitch: 6, STypeSwitch: 3, SFor: 9,
 		SBreak: 5, SContinue: 4, SReturn: 2}
 	c.ForForm = [5]int{5, 3, 3, 1, 3}
@@ -810,9 +839,24 @@ func baseCfg(profile string) Cfg {
 		c.W[SYieldFrom], c.W[SFuncLit] = 10, 3
 		c.Deleg, c.GenLits = true, true
 		c.ForForm = [5]int{5, 3, 3, 0, 3}
+	case "range":
+		c.W[SRange], c.W[SFuncLit], c.W[SSwitch], c.W[STypeSwitch] = 16, 3, 3, 1
+		c.Ranges, c.Closures = true, true
+		c.Quar["A6"] = true
+	case "consumer":
+		c.W[SRange], c.W[SFuncLit] = 12, 3
+		c.Consume, c.GenLits, c.Deleg = true, true, true
+		c.ForForm = [5]int{5, 3, 3, 0, 3}
+		c.PlainPct = 50
+	case "bystander":
+		c.W[SFuncLit], c.W[SExpr], c.W[SDecl], c.W[SAssign] = 9, 6, 9, 9
+		c.Closures, c.GenLits = true, true
+		c.PlainPct = 60
 	case "all":
-		c.W[SFuncLit], c.W[SYieldFrom], c.W[SExpr] = 5, 5, 3
-		c.Closures, c.GenLits, c.Deleg = true, true, true
+		c.W[SFuncLit], c.W[SYieldFrom], c.W[SExpr], c.W[SRange] = 5, 5, 3, 5
+		c.Closures, c.GenLits, c.Deleg, c.Ranges, c.Consume = true, true, true, true, true
+		c.Quar["A6"] = true
+		c.ForForm = [5]int{5, 3, 3, 0, 3}
 	}
 	return c
 }
@@ -821,6 +865,9 @@ func baseCfg(profile string) Cfg {
 func Swarm(r *prng.R, profile string) Cfg {
 	c := baseCfg(profile)
 	keys := []SK{SDecl, SAssign, SIncDec, SEff, SBlock, SIf, SSwitch, STypeSwitch, SFor, SBreak, SContinue, SReturn, SFuncLit, SYieldFrom, SExpr}
+	if profile == "range" || profile == "consumer" {
+		keys = keys[:len(keys)-3] // the profile's own statement kinds are never disabled
+	}
 	for _, k := range keys {
 		if c.W[k] == 0 {
 			continue
@@ -862,13 +909,129 @@ func GenProg(r *prng.R, cfg Cfg, pkg string) *Prog {
 		g.prog.Files = append(g.prog.Files, &File{Name: fmt.Sprintf("gen_%d.go", i), UsesAPI: true})
 	}
 	for i := 0; i < cfg.NFuncs; i++ {
-		f := g.genFunc(i)
+		var f *Func
+		if cfg.PlainPct > 0 && i >= 6 && r.Intn(100) < cfg.PlainPct {
+			f = g.genPlain(i)
+		} else if cfg.Profile == "delegation" && i%7 == 3 {
+			f = g.genRec(i, "")
+			if r.Chance(1, 3) && i+1 < cfg.NFuncs {
+				// a mutually recursive pair
+				f2 := g.genRec(i+1, f.Name)
+				f.Calls = append(f.Calls, f2.Name)
+				g.patchRec(f, f2.Name)
+				file := g.prog.Files[i%nf]
+				file.Funcs = append(file.Funcs, f, f2)
+				g.funcs = append(g.funcs, f, f2)
+				i++
+				continue
+			}
+		} else {
+			f = g.genFunc(i)
+		}
 		file := g.prog.Files[i%nf]
 		file.Funcs = append(file.Funcs, f)
 		g.funcs = append(g.funcs, f)
 	}
-	g.prog.Files[0].Decls = append(g.prog.Files[0].Decls, pickDecl)
+	g.prog.Files[0].Decls = append(g.prog.Files[0].Decls, pickDecl, helperDecls)
+	if cfg.Profile == "consumer" {
+		src, ref, fs := consumerTemplates(r, g.nextTag)
+		tf := &File{Name: "gen_types.go", UsesAPI: true, Decls: src, RefDecls: ref, Extern: fs}
+		g.prog.Files = append(g.prog.Files, tf)
+	}
+	if cfg.Profile == "all" || cfg.Profile == "bystander" {
+		imps, src, ref, fs := optTemplates(r, g.nextTag)
+		tf := &File{Name: "gen_opt.go", UsesAPI: true, Decls: src, RefDecls: ref, Extern: fs, Imports: imps}
+		g.prog.Files = append(g.prog.Files, tf)
+	}
 	return g.prog
+}
+
+// genRec draws a recursive delegator: R(d) delegates to R(d-1) (chain, depth up to 200) or
+// to R(d-1) and R(d-2) (tree, small depths); with partner != "", to the partner instead.
+func (g *G) genRec(i int, partner string) *Func {
+	r := g.r
+	g.feat = map[string]bool{}
+	f := &Func{ID: i, Name: fmt.Sprintf("R%d", i), Gen: true, Elem: "int", Params: []string{"d"}, Named: r.Chance(1, 4)}
+	tree := r.Chance(1, 3)
+	if tree {
+		f.Args = [][]int{{0, 1, 2, 3, 5}}
+		g.mark("recursion_tree")
+	} else {
+		f.Args = [][]int{{0, 1, 2, 5, 50, 200}}
+		g.mark("recursion_chain_depth_200")
+	}
+	target := f.Name
+	if partner != "" {
+		target = partner
+		f.Calls = append(f.Calls, partner)
+		g.mark("mutual_recursion")
+	}
+	sc := (&scope{names: map[string]vkind{}})
+	sc.declare("d", vRO)
+	left := 2 + r.Intn(6)
+	c := &fctx{g: g, gen: true, elem: "int", named: f.Named, nilRet: !f.Named, sc: sc.child(), left: &left}
+	call := func(k int) *S {
+		return &S{K: SYieldFrom, ID: g.id(), E: &X{K: XIterCall, Name: target, Args: []*X{bin(v("d"), "-", lit(k))}}}
+	}
+	base := &S{K: SIf, ID: g.id(), E: bin(v("d"), "<=", lit(0)), Body: []*S{{K: SYield, E: &X{K: XV, Tag: g.nextTag(), A: lit(r.Range(0, 9))}}, {K: SReturn, Nil: !f.Named}}}
+	f.Body = []*S{c.eff(), base}
+	if r.Bool() {
+		f.Body = append(f.Body, &S{K: SYield, ID: g.id(), E: v("d")})
+	}
+	f.Body = append(f.Body, call(1))
+	if r.Bool() {
+		f.Body = append(f.Body, c.eff(), &S{K: SYield, ID: g.id(), E: bin(v("d"), "*", lit(10))})
+	}
+	if tree {
+		f.Body = append(f.Body, call(2))
+	}
+	f.Body = append(f.Body, &S{K: SReturn, ID: g.id(), Nil: !f.Named})
+	for k := range g.feat {
+		f.Feat = append(f.Feat, k)
+	}
+	sortStrings(f.Feat)
+	return f
+}
+
+// patchRec makes f delegate to partner instead of itself (second half of a mutual pair).
+func (g *G) patchRec(f *Func, partner string) {
+	walk(f.Body, func(s *S) {
+		if s.K == SYieldFrom && s.E != nil && s.E.K == XIterCall && s.E.Name == f.Name {
+			s.E.Name = partner
+		}
+	})
+}
+
+// genPlain draws an ordinary (non-generator) function of the processed file that consumes
+// generators of the batch: its result and its effect log are the observation.
+func (g *G) genPlain(i int) *Func {
+	r := g.r
+	g.feat = map[string]bool{}
+	f := &Func{ID: i, Name: fmt.Sprintf("C%d", i)}
+	np := 1 + r.Intn(2)
+	sc := (&scope{names: map[string]vkind{}})
+	for p := 0; p < np; p++ {
+		f.Params = append(f.Params, parmPool[p])
+		f.Args = append(f.Args, []int{-1, 0, 1, 2, 3, 5})
+		sc.declare(parmPool[p], vInt)
+	}
+	left := 4 + r.Intn(g.cfg.MaxStmts)
+	c := &fctx{g: g, gen: false, plainRet: "int", sc: sc.child(), left: &left}
+	acc := "acc"
+	c.sc.declare(acc, vInt)
+	f.Body = append([]*S{{K: SDecl, ID: g.id(), Name: acc, E: lit(0)}}, c.stmts(left)...)
+	f.Body = append(f.Body, &S{K: SReturn, ID: g.id(), E: &X{K: XV, Tag: g.nextTag(), A: v(acc)}})
+	for k := range g.feat {
+		if len(k) > 5 && k[:5] == "CALL:" {
+			f.Calls = append(f.Calls, k[5:])
+		} else if k != "INF" {
+			f.Feat = append(f.Feat, k)
+		}
+	}
+	f.Feat = append(f.Feat, "plain_consumer_function")
+	sortStrings(f.Feat)
+	sortStrings(f.Calls)
+	return f
 }
 
 func (g *G) genFunc(i int) *Func {
